@@ -161,6 +161,20 @@ CLAIMED["C19"] = dict(
          "one-atomic-line-per-request behaviour is an assumption of the model, sampled through the real child process (wall clock); "
          "JSON codecs are not modelled.")
 
+CLAIMED["C17"] = dict(
+    text="PARTIAL (reader/monitor/join logic proved, OS behaviour sampled). Lean 4 theorems over every reachable state of a model "
+         "of Process._reader/_monitor/join/kill (repaired), for every child script over two streams, every exit status, every "
+         "interleaving of child, readers, monitor and caller and every timing of wait() time-outs, idle kills and stop(): at "
+         "`stopped` each (not abandoned) queue holds exactly the lines written, once, in order, and is closed, closed only after "
+         "the last line; returncode is the exit status; join() returns only after exit, normally only for exit 0 of an unkilled "
+         "child and raises iff status != 0 or killed (unless the program called stop()); L1: join() cannot hang. The pinned tree "
+         "lost lines (readers stopped at reaping / the other pipe's EOF) and raised TIMEOUT for /bin/true: two fix: commits. "
+         "Open known finding: a consumer that does not drain the queue loses lines when the monitor abandons the reader.",
+    design="§5 C17, §7", technique="Lean 4 inductive invariant + L1 quiescence theorem + trace acceptance of the real Process over a scripted Popen stub + sampled real children",
+    note="Trusted: Lean kernel + standard axioms; model ProcessIO.lean tied to processes.py by trace acceptance; pipes/waitpid/"
+         "signals are assumptions of the model (EOF exactly at exit), sampled with real children on the OS scheduler; byte-level "
+         "line splitting is checked on real children only.")
+
 PENDING = {}
 
 
